@@ -259,11 +259,16 @@ def _store_array(
         if (
             not isinstance(source._zarray, LazyZarrArray)
             or getattr(source._zarray, "relocated", False)
-            or (is_storage_array(target) and target.chunks != source.chunksize)
+            or (
+                is_storage_array(target)
+                and (
+                    target.chunks != source.chunksize or target.dtype != source.dtype
+                )
+            )
         ):
             # copy into the target (also for an array that has already been relocated to
-            # an earlier store target, and for a target whose chunks differ from the
-            # source's, since arrays are read back by their storage chunks)
+            # an earlier store target, and for a target whose chunks or dtype differ from
+            # the source's, since arrays are read back from their storage)
             ind = tuple(range(source.ndim))
             return blockwise(
                 identity,
